@@ -206,14 +206,6 @@ Proof.
   - destruct (c <? 65536); cbn [app]; discriminate.
 Qed.
 
-Theorem default_inert : forall t rest, safe_default t = true -> hd_not_quote rest ->
-  lex_str (site_default t ++ rest) = Some (t, rest).
-Proof.
-  intros t rest Hs Hr. unfold site_default. rewrite lex_str_dq; [| exact Hr |].
-  - rewrite lex_json_esc by exact Hs. rewrite step_close_dq. cbn [prepend]. rewrite app_nil_r. reflexivity.
-  - destruct t as [|c t]; [exact I|]. unfold json_esc. cbn [flat_map].
-    pose proof (json_esc1_head c) as Hh. destruct (json_esc1 c) as [|d l]; [contradiction|]. exact Hh.
-Qed.
 
 (* ------------------------------------------------------------------ docstrings: text without quote/backslash *)
 Definition okq (q : lst) : Prop := q = Nrm \/ q = AfterCR.
@@ -320,16 +312,6 @@ Proof.
 Qed.
 
 (* ------------------------------------------------------------------ comment *)
-Theorem field_comment_inert : forall t, safe_field_comment t = true ->
-  single_physical_line (site_field_comment t) = true.
-Proof.
-  intros t H. unfold site_field_comment, single_physical_line. cbn [forallb]. cbn.
-  unfold safe_field_comment, no_chars in H. unfold nl_to_sp. rewrite forallb_forall in *.
-  intros c Hc. apply in_map_iff in Hc. destruct Hc as [d [Hd Hin]]. specialize (H d Hin).
-  unfold line_break. destruct (d =? 10) eqn:E10.
-  - subst c. reflexivity.
-  - subst c. rewrite E10. destruct (d =? 13); [discriminate|]. exact H.
-Qed.
 
 (* ------------------------------------------------------------------ docstring templates with isolated quotes *)
 Lemma step_docplain : forall c q r rest, docplain c = true -> okq q ->
@@ -580,10 +562,6 @@ Definition w_docw_out_bsx : str := q3 ++ [10] ++ w_bsx ++ [10] ++ q3.
 Lemma docwriter_refuted_bsx : safe_doc_raw w_bsx = false /\ site_docwriter_rel w_bsx w_docw_out_bsx = true /\
   lex_str (w_docw_out_bsx ++ []) = None.
 Proof. repeat split. Qed.
-Lemma comment_refuted : safe_field_comment w_cr = false /\ single_physical_line (site_field_comment w_cr) = false.
-Proof. split; reflexivity. Qed.
-Lemma default_refuted : safe_default w_astral = false /\ lex_str (site_default w_astral ++ []) = Some ([55357; 56832], []).
-Proof. split; reflexivity. Qed.
 Lemma client_title_refuted : safe_doc_raw q3 = false /\ forall v, lex_str (site_client_title [49;46;48] q3 ++ []) <> Some (v, []).
 Proof. split; [reflexivity|]. intros v H. vm_compute in H. discriminate. Qed.
 Lemma tag_doc_refuted : safe_doc_raw q3 = false /\ forall v, lex_str (site_tag_doc q3 ++ []) <> Some (v, []).
@@ -594,13 +572,12 @@ Proof. split; reflexivity. Qed.
 (* ------------------------------------------------------------------ the guards are not vacuous *)
 Definition ex_text : str := [104; 233; 108; 108; 111; 32; 119; 8211; 28450; 47; 49; 39; 123; 125; 37; 115].  (* non-ASCII, braces, percent *)
 Example guards_nonvacuous :
-  safe_dq_raw ex_text = true /\ safe_dq_block ex_text = true /\ safe_default (ex_text ++ [34; 92; 10; 0; 127; 55296]) = true /\
-  safe_doc_raw (ex_text ++ [10; 13; 9]) = true /\ safe_field_comment (ex_text ++ [34; 92; 10; 12; 8232]) = true /\
-  safe_alias_doc (ex_text ++ [34; 34; 34; 34; 92; 34; 92; 110; 13; 10; 120]) = true.
+  safe_doc_raw (ex_text ++ [10; 13; 9]) = true /\
+  safe_alias_doc (ex_text ++ [34; 34; 34; 34; 92; 34; 92; 110; 13; 10; 120]) = true /\
+  scalar (ex_text ++ [34; 92; 10; 13; 0; 127; 133; 8232; 128512]) = true /\
+  in_range (ex_text ++ [34; 39; 92; 10; 0; 55296; 128512]) = true.
 Proof. repeat split. Qed.
 (* the escaping sites really escape: what the lexer reads back *)
-Example default_example : lex_str (site_default [34; 92; 10; 0; 233; 8232; 127]) = Some ([34; 92; 10; 0; 233; 8232; 127], []).
-Proof. reflexivity. Qed.
 Example alias_example : exists v, lex_str (site_alias_doc [97; 34; 34; 34; 34; 92; 110; 120]) = Some (s_alias_for ++ [97; 34; 34; 34; 34; 92; 110; 120] ++ v, []).
 Proof. exists []. reflexivity. Qed.
 
@@ -658,4 +635,439 @@ Lemma enum_default_refuted : safe_enum_default w_quote = false /\ is_ident (site
 Proof. split; reflexivity. Qed.
 Example enum_default_example : safe_enum_default [108;111;119;45;112;114;105;111;32;50] = true /\
   site_enum_default [108;111;119;45;112;114;105;111;32;50] = [76;79;87;95;80;82;73;79;95;50].
+Proof. split; reflexivity. Qed.
+
+(* ================================================================== escapers used by the repaired sites *)
+(* ---------- json.dumps(s, ensure_ascii=False) *)
+Lemma scalar_cons : forall c t, scalar (c :: t) = true -> is_surrogate c = false /\ c <= 1114111 /\ scalar t = true.
+Proof.
+  intros c t H. unfold scalar in H. cbn [forallb] in H. apply andb_true_iff in H. destruct H as [Hc Ht].
+  apply andb_true_iff in Hc. destruct Hc as [Hs Hm]. apply negb_true_iff in Hs. apply N.leb_le in Hm. auto.
+Qed.
+
+Lemma lex_json_raw1 : forall tq c X, is_surrogate c = false -> c <= 1114111 ->
+  lex_go tq Nrm (json_raw1 c ++ X) = consf c (lex_go tq Nrm X).
+Proof.
+  intros tq c X Hs Hm. unfold json_raw1.
+  destruct (c =? 34) eqn:E34. { apply N.eqb_eq in E34; subst c. cbn [app]. rewrite step_bs. apply step_esc_simple. reflexivity. }
+  destruct (c =? 92) eqn:E92. { apply N.eqb_eq in E92; subst c. cbn [app]. rewrite step_bs. apply step_esc_simple. reflexivity. }
+  destruct (c =? 10) eqn:E10. { apply N.eqb_eq in E10; subst c. cbn [app]. rewrite step_bs. apply step_esc_simple. reflexivity. }
+  destruct (c =? 13) eqn:E13. { apply N.eqb_eq in E13; subst c. cbn [app]. rewrite step_bs. apply step_esc_simple. reflexivity. }
+  destruct (c =? 9) eqn:E9. { apply N.eqb_eq in E9; subst c. cbn [app]. rewrite step_bs. apply step_esc_simple. reflexivity. }
+  destruct (c =? 8) eqn:E8. { apply N.eqb_eq in E8; subst c. cbn [app]. rewrite step_bs. apply step_esc_simple. reflexivity. }
+  destruct (c =? 12) eqn:E12. { apply N.eqb_eq in E12; subst c. cbn [app]. rewrite step_bs. apply step_esc_simple. reflexivity. }
+  destruct (c <? 32) eqn:E32.
+  - apply lex_u_esc. apply N.ltb_lt in E32. lia.
+  - cbn [app]. apply step_plain. unfold plain, bad_raw. rewrite E34, E92, E13, E10, Hs.
+    apply N.ltb_ge in E32.
+    replace (c =? 0) with false by (symmetry; apply N.eqb_neq; lia).
+    replace (1114111 <? c) with false by (symmetry; apply N.ltb_ge; lia).
+    destruct tq; reflexivity.
+Qed.
+
+Lemma lex_json_raw : forall tq t X, scalar t = true ->
+  lex_go tq Nrm (json_raw t ++ X) = prepend t (lex_go tq Nrm X).
+Proof.
+  induction t as [|c t IH]; intros X H.
+  - rewrite prepend_nil. reflexivity.
+  - apply scalar_cons in H. destruct H as [Hs [Hm Ht]].
+    unfold json_raw. cbn [flat_map]. rewrite <- app_assoc. rewrite lex_json_raw1 by assumption.
+    fold (json_raw t). rewrite IH by exact Ht. rewrite prepend_cons. reflexivity.
+Qed.
+
+Lemma json_raw1_head : forall c, match json_raw1 c with d :: _ => d <> 34 | [] => False end.
+Proof.
+  intro c. unfold json_raw1, u_esc.
+  destruct (c =? 34) eqn:E34; [discriminate|].
+  destruct (c =? 92); [discriminate|]. destruct (c =? 10); [discriminate|]. destruct (c =? 13); [discriminate|].
+  destruct (c =? 9); [discriminate|]. destruct (c =? 8); [discriminate|]. destruct (c =? 12); [discriminate|].
+  destruct (c <? 32); [discriminate|]. apply N.eqb_neq. exact E34.
+Qed.
+
+Theorem json_raw_inert : forall t rest, scalar t = true -> hd_not_quote rest ->
+  lex_str (dq (json_raw t) ++ rest) = Some (t, rest).
+Proof.
+  intros t rest Hs Hr. rewrite lex_str_dq; [| exact Hr |].
+  - rewrite lex_json_raw by exact Hs. rewrite step_close_dq. cbn [prepend]. rewrite app_nil_r. reflexivity.
+  - destruct t as [|c t]; [exact I|]. unfold json_raw. cbn [flat_map].
+    pose proof (json_raw1_head c) as Hh. destruct (json_raw1 c) as [|d l]; [contradiction|]. exact Hh.
+Qed.
+
+Lemma lex_dq_dq : forall body rest, hd_not_quote rest ->
+  match body with c :: _ => c <> 34 | [] => True end ->
+  lex_dq (dq body ++ rest) = lex_go false Nrm (body ++ 34 :: rest).
+Proof.
+  intros body rest Hr Hb. unfold lex_dq. rewrite starts3_dq by assumption.
+  unfold dq. cbn [app]. rewrite N.eqb_refl. rewrite <- app_assoc. reflexivity.
+Qed.
+
+(* ---------- repr(str) *)
+Lemma hex4_acc : forall acc a, a < 65536 ->
+  16 * (16 * (16 * (16 * acc + a / 4096) + (a / 256) mod 16) + (a / 16) mod 16) + a mod 16 = 65536 * acc + a.
+Proof. intros acc a H. pose proof (hex4_value a H). lia. Qed.
+
+Lemma hex4_bounds : forall a, a < 65536 ->
+  a / 4096 < 16 /\ (a / 256) mod 16 < 16 /\ (a / 16) mod 16 < 16 /\ a mod 16 < 16.
+Proof.
+  intros a H. repeat split; try (apply N.mod_lt; lia). apply N.div_lt_upper_bound; lia.
+Qed.
+
+Lemma lex_hex4_mid : forall tq k acc a X, a < 65536 ->
+  lex_go tq (Hex (S (S (S (S (S k))))) acc) (hex4 a ++ X) = lex_go tq (Hex (S k) (65536 * acc + a)) X.
+Proof.
+  intros tq k acc a X H. destruct (hex4_bounds a H) as [B3 [B2 [B1 B0]]]. unfold hex4. cbn [app].
+  rewrite (step_hex tq _ acc _ (a / 4096)) by (apply hexval_hexdig; assumption).
+  rewrite (step_hex tq _ _ _ ((a / 256) mod 16)) by (apply hexval_hexdig; assumption).
+  rewrite (step_hex tq _ _ _ ((a / 16) mod 16)) by (apply hexval_hexdig; assumption).
+  rewrite (step_hex tq _ _ _ (a mod 16)) by (apply hexval_hexdig; assumption).
+  rewrite hex4_acc by exact H. reflexivity.
+Qed.
+
+Lemma lex_hex4_last : forall tq acc a X, a < 65536 -> 65536 * acc + a <= 1114111 ->
+  lex_go tq (Hex 4 acc) (hex4 a ++ X) = consf (65536 * acc + a) (lex_go tq Nrm X).
+Proof.
+  intros tq acc a X H Hm. destruct (hex4_bounds a H) as [B3 [B2 [B1 B0]]]. unfold hex4. cbn [app].
+  rewrite (step_hex tq _ acc _ (a / 4096)) by (apply hexval_hexdig; assumption).
+  rewrite (step_hex tq _ _ _ ((a / 256) mod 16)) by (apply hexval_hexdig; assumption).
+  rewrite (step_hex tq _ _ _ ((a / 16) mod 16)) by (apply hexval_hexdig; assumption).
+  rewrite (step_hex_last tq _ _ (a mod 16)).
+  - rewrite hex4_acc by exact H. reflexivity.
+  - apply hexval_hexdig; assumption.
+  - rewrite hex4_acc by exact H. apply N.ltb_ge. exact Hm.
+Qed.
+
+Lemma step_esc_U : forall tq r, lex_go tq Esc (85 :: r) = lex_go tq (Hex 8 0) r.
+Proof. intros tq r. destruct r; reflexivity. Qed.
+Lemma step_esc_x : forall tq r, lex_go tq Esc (120 :: r) = lex_go tq (Hex 2 0) r.
+Proof. intros tq r. destruct r; reflexivity. Qed.
+
+Lemma lex_U_esc : forall tq c X, c <= 1114111 -> lex_go tq Nrm (U_esc c ++ X) = consf c (lex_go tq Nrm X).
+Proof.
+  intros tq c X H. unfold U_esc. cbn [app]. rewrite step_bs, step_esc_U. rewrite <- app_assoc.
+  assert (c / 65536 < 65536) by (apply N.div_lt_upper_bound; lia).
+  assert (c mod 65536 < 65536) by (apply N.mod_lt; lia).
+  assert (E : 65536 * (65536 * 0 + c / 65536) + c mod 65536 = c).
+  { pose proof (N.div_mod c 65536). lia. }
+  rewrite (lex_hex4_mid tq 3 0 (c / 65536)) by assumption.
+  rewrite lex_hex4_last; [rewrite E; reflexivity | assumption | lia].
+Qed.
+
+Lemma lex_x_esc : forall tq c X, c < 256 -> lex_go tq Nrm (x_esc c ++ X) = consf c (lex_go tq Nrm X).
+Proof.
+  intros tq c X H. unfold x_esc, hex2. cbn [app]. rewrite step_bs, step_esc_x.
+  assert (c / 16 < 16) by (apply N.div_lt_upper_bound; lia).
+  assert (c mod 16 < 16) by (apply N.mod_lt; lia).
+  assert (E : 16 * (16 * 0 + c / 16) + c mod 16 = c) by (pose proof (N.div_mod c 16); lia).
+  rewrite (step_hex tq 0 0 _ (c / 16)) by (apply hexval_hexdig; assumption).
+  rewrite (step_hex_last tq _ _ (c mod 16)).
+  - rewrite E. reflexivity.
+  - apply hexval_hexdig; assumption.
+  - rewrite E. apply N.ltb_ge. lia.
+Qed.
+
+(* the escape sequences contain no quote character: exchanging the quotes leaves them alone *)
+Lemma swapq_hexdig : forall d, d < 16 -> swapq (hexdig d) = hexdig d.
+Proof.
+  intros d H.
+  assert (d = 0 \/ d = 1 \/ d = 2 \/ d = 3 \/ d = 4 \/ d = 5 \/ d = 6 \/ d = 7 \/ d = 8 \/ d = 9 \/ d = 10
+          \/ d = 11 \/ d = 12 \/ d = 13 \/ d = 14 \/ d = 15) as D by lia.
+  repeat (destruct D as [-> | D]; [reflexivity|]). subst d. reflexivity.
+Qed.
+Lemma swapq_hex4 : forall a, a < 65536 -> map swapq (hex4 a) = hex4 a.
+Proof.
+  intros a H. destruct (hex4_bounds a H) as [B3 [B2 [B1 B0]]]. unfold hex4. cbn [map].
+  rewrite !swapq_hexdig by assumption. reflexivity.
+Qed.
+Lemma swapq_x_esc : forall c, c < 256 -> map swapq (x_esc c) = x_esc c.
+Proof.
+  intros c H. unfold x_esc, hex2. cbn [map].
+  rewrite !swapq_hexdig; [reflexivity | apply N.mod_lt; lia | apply N.div_lt_upper_bound; lia].
+Qed.
+Lemma swapq_u_esc : forall c, c < 65536 -> map swapq (u_esc c) = u_esc c.
+Proof. intros c H. unfold u_esc. cbn [map]. rewrite swapq_hex4 by exact H. reflexivity. Qed.
+Lemma swapq_U_esc : forall c, c <= 1114111 -> map swapq (U_esc c) = U_esc c.
+Proof.
+  intros c H. unfold U_esc. cbn [map]. rewrite map_app.
+  rewrite !swapq_hex4; [reflexivity | apply N.mod_lt; lia | apply N.div_lt_upper_bound; lia].
+Qed.
+Lemma swapq_invol : forall c, swapq (swapq c) = c.
+Proof.
+  intro c. unfold swapq. destruct (c =? 34) eqn:A.
+  - apply N.eqb_eq in A. subst c. reflexivity.
+  - destruct (c =? 39) eqn:B.
+    + apply N.eqb_eq in B. subst c. reflexivity.
+    + rewrite A, B. reflexivity.
+Qed.
+Lemma map_swapq_invol : forall s, map swapq (map swapq s) = s.
+Proof. induction s as [|c s IH]; [reflexivity|]. cbn [map]. rewrite swapq_invol, IH. reflexivity. Qed.
+
+(* one character of repr, read back in a double-quoted literal: [sw] is the identity for q = 34 and the quote
+   exchange for q = 39 (where the literal is read through lex_sq) *)
+Lemma lex_repr_esc1 : forall pr (sw : N -> N) q c X, pr_ok pr -> c <= 1114111 ->
+  ((sw = (fun x => x) /\ q = 34) \/ (sw = swapq /\ q = 39)) ->
+  lex_go false Nrm (map sw (repr_esc1 pr q c) ++ X) = consf (sw c) (lex_go false Nrm X).
+Proof.
+  intros pr sw q c X Hpr Hm Hsw.
+  assert (Hid : forall l, (forall x, In x l -> x <> 34 /\ x <> 39) -> map sw l = l).
+  { intros l Hl. destruct Hsw as [[-> _] | [-> _]]; [apply map_id|].
+    induction l as [|x l IH]; [reflexivity|]. cbn [map]. rewrite IH by (intros y Hy; apply Hl; right; exact Hy).
+    destruct (Hl x (or_introl eq_refl)) as [A B]. unfold swapq.
+    apply N.eqb_neq in A. apply N.eqb_neq in B. rewrite A, B. reflexivity. }
+  assert (Hfix : forall x, x <> 34 -> x <> 39 -> sw x = x).
+  { intros x A B. destruct Hsw as [[-> _] | [-> _]]; [reflexivity|]. unfold swapq.
+    apply N.eqb_neq in A. apply N.eqb_neq in B. rewrite A, B. reflexivity. }
+  assert (Hswq : sw q = 34) by (destruct Hsw as [[-> ->] | [-> ->]]; reflexivity).
+  assert (Hesc : forall e, (map swapq e = e) -> map sw e = e).
+  { intros e He. destruct Hsw as [[-> _] | [-> _]]; [apply map_id | exact He]. }
+  unfold repr_esc1.
+  destruct (c =? 92) eqn:E92.
+  { apply N.eqb_eq in E92; subst c. rewrite (Hesc [92;92] eq_refl). rewrite (Hfix 92) by discriminate.
+    cbn [app]. rewrite step_bs. apply step_esc_simple. reflexivity. }
+  destruct (c =? q) eqn:Eq.
+  { apply N.eqb_eq in Eq; subst c. cbn [map app]. rewrite (Hfix 92) by discriminate. rewrite Hswq.
+    rewrite step_bs. apply step_esc_simple. reflexivity. }
+  destruct (c =? 9) eqn:E9.
+  { apply N.eqb_eq in E9; subst c. rewrite (Hesc [92;116] eq_refl). rewrite (Hfix 9) by discriminate.
+    cbn [app]. rewrite step_bs. apply step_esc_simple. reflexivity. }
+  destruct (c =? 10) eqn:E10.
+  { apply N.eqb_eq in E10; subst c. rewrite (Hesc [92;110] eq_refl). rewrite (Hfix 10) by discriminate.
+    cbn [app]. rewrite step_bs. apply step_esc_simple. reflexivity. }
+  destruct (c =? 13) eqn:E13.
+  { apply N.eqb_eq in E13; subst c. rewrite (Hesc [92;114] eq_refl). rewrite (Hfix 13) by discriminate.
+    cbn [app]. rewrite step_bs. apply step_esc_simple. reflexivity. }
+  destruct ((c <? 32) || (c =? 127)) eqn:Ectl.
+  { assert (c < 256).
+    { apply orb_true_iff in Ectl. destruct Ectl as [A|A]; [apply N.ltb_lt in A | apply N.eqb_eq in A]; lia. }
+    assert (c <> 34 /\ c <> 39).
+    { apply orb_true_iff in Ectl. destruct Ectl as [A|A]; [apply N.ltb_lt in A | apply N.eqb_eq in A]; lia. }
+    rewrite (Hesc _ (swapq_x_esc c H)). rewrite (Hfix c) by tauto. apply lex_x_esc. exact H. }
+  apply orb_false_iff in Ectl. destruct Ectl as [E32 E127]. apply N.ltb_ge in E32. apply N.eqb_neq in E127.
+  apply N.eqb_neq in E92.
+  destruct (c <? 127) eqn:Easc.
+  { (* printable ASCII other than backslash and the literal's quote *)
+    apply N.ltb_lt in Easc. cbn [map app]. apply step_plain.
+    assert (Hne : sw c <> 34).
+    { destruct Hsw as [[-> ->] | [-> ->]].
+      - apply N.eqb_neq. exact Eq.
+      - apply N.eqb_neq in Eq. unfold swapq. destruct (c =? 34) eqn:A; [discriminate|].
+        destruct (c =? 39) eqn:B; [apply N.eqb_eq in B; contradiction|]. apply N.eqb_neq. exact A. }
+    assert (Hrange : 32 <= sw c /\ sw c < 127 /\ sw c <> 92).
+    { destruct Hsw as [[-> _] | [-> _]]; [lia|]. unfold swapq.
+      destruct (c =? 34) eqn:A; [lia|]. destruct (c =? 39) eqn:B; lia. }
+    unfold plain, bad_raw, is_surrogate.
+    replace (sw c =? 34) with false by (symmetry; apply N.eqb_neq; exact Hne).
+    replace (sw c =? 92) with false by (symmetry; apply N.eqb_neq; lia).
+    replace (sw c =? 0) with false by (symmetry; apply N.eqb_neq; lia).
+    replace (55296 <=? sw c) with false by (symmetry; apply N.leb_gt; lia).
+    replace (1114111 <? sw c) with false by (symmetry; apply N.ltb_ge; lia).
+    replace (sw c =? 13) with false by (symmetry; apply N.eqb_neq; lia).
+    replace (sw c =? 10) with false by (symmetry; apply N.eqb_neq; lia).
+    reflexivity. }
+  apply N.ltb_ge in Easc.
+  assert (Hc : c <> 34 /\ c <> 39) by lia.
+  destruct (pr c) eqn:Epr.
+  { destruct (Hpr c Epr) as [H128 [Hbad Hbrk]]. cbn [map app]. rewrite (Hfix c) by tauto. apply step_plain.
+    unfold plain. rewrite Hbad.
+    replace (c =? 34) with false by (symmetry; apply N.eqb_neq; lia).
+    replace (c =? 92) with false by (symmetry; apply N.eqb_neq; lia).
+    replace (c =? 13) with false by (symmetry; apply N.eqb_neq; lia).
+    replace (c =? 10) with false by (symmetry; apply N.eqb_neq; lia). reflexivity. }
+  rewrite (Hfix c) by tauto.
+  destruct (c <? 256) eqn:E256.
+  { apply N.ltb_lt in E256. rewrite (Hesc _ (swapq_x_esc c E256)). apply lex_x_esc. exact E256. }
+  destruct (c <? 65536) eqn:E64k.
+  { apply N.ltb_lt in E64k. rewrite (Hesc _ (swapq_u_esc c E64k)). apply lex_u_esc. exact E64k. }
+  rewrite (Hesc _ (swapq_U_esc c Hm)). apply lex_U_esc. exact Hm.
+Qed.
+
+Lemma lex_repr_body : forall pr (sw : N -> N) q t X, pr_ok pr -> in_range t = true ->
+  ((sw = (fun x => x) /\ q = 34) \/ (sw = swapq /\ q = 39)) ->
+  lex_go false Nrm (map sw (flat_map (repr_esc1 pr q) t) ++ X) = prepend (map sw t) (lex_go false Nrm X).
+Proof.
+  intros pr sw q t X Hpr Hr Hsw. revert X. induction t as [|c t IH]; intro X.
+  - cbn. rewrite prepend_nil. reflexivity.
+  - unfold in_range in Hr. cbn [forallb] in Hr. apply andb_true_iff in Hr. destruct Hr as [Hc Ht].
+    apply N.leb_le in Hc. cbn [flat_map map]. rewrite map_app, <- app_assoc.
+    rewrite (lex_repr_esc1 pr sw q c _ Hpr Hc Hsw). rewrite (IH Ht). rewrite prepend_cons. reflexivity.
+Qed.
+
+Lemma repr_esc1_head : forall pr q c, match repr_esc1 pr q c with d :: _ => d = 92 \/ (d = c /\ c <> q) | [] => False end.
+Proof.
+  intros pr q c. unfold repr_esc1, x_esc, u_esc, U_esc.
+  destruct (c =? 92); [left; reflexivity|]. destruct (c =? q) eqn:Eq; [left; reflexivity|]. apply N.eqb_neq in Eq.
+  destruct (c =? 9); [left; reflexivity|]. destruct (c =? 10); [left; reflexivity|]. destruct (c =? 13); [left; reflexivity|].
+  destruct ((c <? 32) || (c =? 127)); [left; reflexivity|].
+  destruct (c <? 127); [right; split; [reflexivity | exact Eq]|].
+  destruct (pr c); [right; split; [reflexivity | exact Eq]|].
+  destruct (c <? 256); [left; reflexivity|]. destruct (c <? 65536); left; reflexivity.
+Qed.
+
+(* repr(t) is read back as exactly t, whatever quote repr chose *)
+Theorem repr_inert : forall pr t rest, pr_ok pr -> in_range t = true ->
+  match rest with c :: _ => c <> 34 /\ c <> 39 | [] => True end ->
+  lex_lit (py_repr pr t ++ rest) = Some (t, rest).
+Proof.
+  intros pr t rest Hpr Hr Hrest. unfold py_repr. set (q := repr_quote t).
+  assert (Hq : q = 34 \/ q = 39) by (unfold q, repr_quote; destruct (_ && _); auto).
+  destruct Hq as [Hq | Hq]; rewrite Hq.
+  - (* double-quoted *)
+    unfold lex_lit. cbn [app]. change (34 =? 39) with false. cbv iota.
+    change (lex_str (dq (flat_map (repr_esc1 pr 34) t) ++ rest) = Some (t, rest)).
+    rewrite lex_str_dq.
+    + pose proof (lex_repr_body pr (fun x => x) 34 t (34 :: rest) Hpr Hr (or_introl (conj eq_refl eq_refl))) as L.
+      rewrite !map_id in L. rewrite L. rewrite step_close_dq. cbn [prepend]. rewrite app_nil_r. reflexivity.
+    + destruct rest as [|d r]; [exact I|]. cbn. apply Hrest.
+    + destruct t as [|c t]; [exact I|]. cbn [flat_map].
+      pose proof (repr_esc1_head pr 34 c) as Hh. destruct (repr_esc1 pr 34 c) as [|d l]; [contradiction|].
+      cbn [app]. destruct Hh as [-> | [-> Hne]]; [discriminate | exact Hne].
+  - (* single-quoted: read through the quote exchange *)
+    unfold lex_lit. cbn [app]. change (39 =? 39) with true. cbv iota. unfold lex_sq.
+    cbn [map]. change (swapq 39) with 34. rewrite !map_app. cbn [map]. change (swapq 39) with 34.
+    replace (34 :: (map swapq (flat_map (repr_esc1 pr 39) t) ++ [34]) ++ map swapq rest)
+      with (dq (map swapq (flat_map (repr_esc1 pr 39) t)) ++ map swapq rest) by reflexivity.
+    rewrite lex_dq_dq.
+    + rewrite (lex_repr_body pr swapq 39 t _ Hpr Hr (or_intror (conj eq_refl eq_refl))).
+      rewrite step_close_dq. cbn [prepend]. rewrite app_nil_r. rewrite !map_swapq_invol. reflexivity.
+    + destruct rest as [|d r]; [exact I|]. cbn [map hd_not_quote]. destruct Hrest as [A B]. unfold swapq.
+      apply N.eqb_neq in A. rewrite A. destruct (d =? 39) eqn:E; [apply N.eqb_eq in E; contradiction | apply N.eqb_neq; exact A].
+    + destruct t as [|c t]; [exact I|]. cbn [flat_map]. rewrite map_app.
+      pose proof (repr_esc1_head pr 39 c) as Hh. destruct (repr_esc1 pr 39 c) as [|d l]; [contradiction|].
+      cbn [map app]. destruct Hh as [-> | [-> Hne]]; [discriminate|].
+      unfold swapq. destruct (c =? 34) eqn:A; [discriminate|]. destruct (c =? 39) eqn:E; [apply N.eqb_eq in E; contradiction|].
+      apply N.eqb_neq. exact A.
+Qed.
+
+(* ================================================================== the repaired sites: FULL theorems *)
+Theorem site_json_raw_inert : forall t rest, scalar t = true -> hd_not_quote rest ->
+  lex_str (dq (json_raw t) ++ rest) = Some (t, rest).
+Proof. exact json_raw_inert. Qed.
+
+(* no character emitted by repr / python_string_literal is a line-break character of str.splitlines *)
+Lemma hexdig_not_break : forall d, d < 16 -> is_break (hexdig d) = false.
+Proof.
+  intros d H.
+  assert (d = 0 \/ d = 1 \/ d = 2 \/ d = 3 \/ d = 4 \/ d = 5 \/ d = 6 \/ d = 7 \/ d = 8 \/ d = 9 \/ d = 10
+          \/ d = 11 \/ d = 12 \/ d = 13 \/ d = 14 \/ d = 15) as D by lia.
+  repeat (destruct D as [-> | D]; [reflexivity|]). subst d. reflexivity.
+Qed.
+Definition nobreak (s : str) : bool := forallb (fun c => negb (is_break c)) s.
+Lemma nobreak_hex4 : forall a, a < 65536 -> nobreak (hex4 a) = true.
+Proof.
+  intros a H. destruct (hex4_bounds a H) as [B3 [B2 [B1 B0]]]. unfold nobreak, hex4. cbn [forallb].
+  rewrite !hexdig_not_break by assumption. reflexivity.
+Qed.
+Lemma nobreak_app : forall a b, nobreak a = true -> nobreak b = true -> nobreak (a ++ b) = true.
+Proof. intros a b Ha Hb. unfold nobreak in *. rewrite forallb_app, Ha, Hb. reflexivity. Qed.
+
+Lemma nobreak_repr_esc1 : forall pr q c, pr_ok pr -> c <= 1114111 -> (q = 34 \/ q = 39) ->
+  nobreak (repr_esc1 pr q c) = true.
+Proof.
+  intros pr q c Hpr Hm Hq. unfold repr_esc1.
+  destruct (c =? 92); [reflexivity|].
+  destruct (c =? q); [destruct Hq as [-> | ->]; reflexivity|].
+  destruct (c =? 9); [reflexivity|]. destruct (c =? 10); [reflexivity|]. destruct (c =? 13) eqn:E13; [reflexivity|].
+  destruct ((c <? 32) || (c =? 127)) eqn:Ectl.
+  { assert (c < 256).
+    { apply orb_true_iff in Ectl. destruct Ectl as [A|A]; [apply N.ltb_lt in A | apply N.eqb_eq in A]; lia. }
+    unfold x_esc, hex2, nobreak. cbn [forallb].
+    rewrite !hexdig_not_break; [reflexivity | apply N.mod_lt; lia | apply N.div_lt_upper_bound; lia]. }
+  apply orb_false_iff in Ectl. destruct Ectl as [E32 E127]. apply N.ltb_ge in E32.
+  destruct (c <? 127) eqn:Easc.
+  { apply N.ltb_lt in Easc. unfold nobreak, is_break. cbn [forallb].
+    replace (c =? 10) with false by (symmetry; apply N.eqb_neq; lia).
+    replace (c =? 13) with false by (symmetry; apply N.eqb_neq; lia).
+    replace (c =? 11) with false by (symmetry; apply N.eqb_neq; lia).
+    replace (c =? 12) with false by (symmetry; apply N.eqb_neq; lia).
+    replace (c =? 28) with false by (symmetry; apply N.eqb_neq; lia).
+    replace (c =? 29) with false by (symmetry; apply N.eqb_neq; lia).
+    replace (c =? 30) with false by (symmetry; apply N.eqb_neq; lia).
+    replace (c =? 133) with false by (symmetry; apply N.eqb_neq; lia).
+    replace (c =? 8232) with false by (symmetry; apply N.eqb_neq; lia).
+    replace (c =? 8233) with false by (symmetry; apply N.eqb_neq; lia). reflexivity. }
+  destruct (pr c) eqn:Epr.
+  { destruct (Hpr c Epr) as [_ [_ Hb]]. unfold nobreak. cbn [forallb]. rewrite Hb. reflexivity. }
+  destruct (c <? 256) eqn:E256.
+  { apply N.ltb_lt in E256. unfold x_esc, hex2, nobreak. cbn [forallb].
+    rewrite !hexdig_not_break; [reflexivity | apply N.mod_lt; lia | apply N.div_lt_upper_bound; lia]. }
+  destruct (c <? 65536) eqn:E64k.
+  { apply N.ltb_lt in E64k. unfold u_esc. change (nobreak ([92; 117] ++ hex4 c) = true).
+    apply nobreak_app; [reflexivity | apply nobreak_hex4; exact E64k]. }
+  unfold U_esc. change (nobreak ([92; 85] ++ hex4 (c / 65536) ++ hex4 (c mod 65536)) = true).
+  apply nobreak_app; [reflexivity|]. apply nobreak_app; apply nobreak_hex4;
+    [apply N.div_lt_upper_bound; lia | apply N.mod_lt; lia].
+Qed.
+
+Lemma nobreak_repr_body : forall pr q t, pr_ok pr -> in_range t = true -> (q = 34 \/ q = 39) ->
+  nobreak (flat_map (repr_esc1 pr q) t) = true.
+Proof.
+  intros pr q t Hpr Hr Hq. induction t as [|c t IH]; [reflexivity|].
+  unfold in_range in Hr. cbn [forallb] in Hr. apply andb_true_iff in Hr. destruct Hr as [Hc Ht]. apply N.leb_le in Hc.
+  cbn [flat_map]. apply nobreak_app; [apply nobreak_repr_esc1; assumption | apply IH; exact Ht].
+Qed.
+
+Lemma nobreak_py_repr : forall pr t, pr_ok pr -> in_range t = true -> nobreak (py_repr pr t) = true.
+Proof.
+  intros pr t Hpr Hr. unfold py_repr.
+  assert (Hq : repr_quote t = 34 \/ repr_quote t = 39) by (unfold repr_quote; destruct (_ && _); auto).
+  change (nobreak ([repr_quote t] ++ flat_map (repr_esc1 pr (repr_quote t)) t ++ [repr_quote t]) = true).
+  apply nobreak_app; [destruct Hq as [-> | ->]; reflexivity|].
+  apply nobreak_app; [apply nobreak_repr_body; assumption | destruct Hq as [-> | ->]; reflexivity].
+Qed.
+
+Lemma pr_none_ok : pr_ok (fun _ => false).
+Proof. intros c H. discriminate. Qed.
+
+(* python_string_literal: read back as exactly t, for every string (lone surrogates included) *)
+Theorem ascii_lit_inert : forall t rest, in_range t = true -> hd_not_quote rest ->
+  lex_str (reflow ind4 (ascii_lit t) ++ rest) = Some (t, rest).
+Proof.
+  intros t rest Hr Hrest. rewrite reflow_id.
+  - unfold ascii_lit. rewrite lex_str_dq; [| exact Hrest |].
+    + pose proof (lex_repr_body (fun _ => false) (fun x => x) 34 t (34 :: rest) pr_none_ok Hr (or_introl (conj eq_refl eq_refl))) as L.
+      rewrite !map_id in L. rewrite L. rewrite step_close_dq. cbn [prepend]. rewrite app_nil_r. reflexivity.
+    + destruct t as [|c t]; [exact I|]. cbn [flat_map].
+      pose proof (repr_esc1_head (fun _ => false) 34 c) as Hh. destruct (repr_esc1 (fun _ => false) 34 c) as [|d l]; [contradiction|].
+      cbn [app]. destruct Hh as [-> | [-> Hne]]; [discriminate | exact Hne].
+  - unfold ascii_lit, dq. change (nobreak ([34] ++ flat_map (repr_esc1 (fun _ => false) 34) t ++ [34]) = true).
+    apply nobreak_app; [reflexivity|]. apply nobreak_app; [|reflexivity].
+    apply nobreak_repr_body; [exact pr_none_ok | exact Hr | left; reflexivity].
+Qed.
+
+(* repr through write_block *)
+Theorem media_repr_inert : forall pr t rest, pr_ok pr -> in_range t = true ->
+  match rest with c :: _ => c <> 34 /\ c <> 39 | [] => True end ->
+  lex_lit (site_media_repr pr t ++ rest) = Some (t, rest).
+Proof.
+  intros pr t rest Hpr Hr Hrest. unfold site_media_repr. rewrite reflow_id.
+  - apply repr_inert; assumption.
+  - apply nobreak_py_repr; assumption.
+Qed.
+
+(* the comment after the fix: one physical line for every text a document can contain *)
+Theorem field_comment_inert : forall t, scalar t = true -> single_physical_line (site_field_comment t) = true.
+Proof.
+  intros t H. unfold site_field_comment, single_physical_line. cbn [forallb]. cbn.
+  unfold scalar in H. unfold comment_clean. rewrite forallb_forall in *.
+  intros c Hc. apply in_map_iff in Hc. destruct Hc as [d [Hd Hin]]. specialize (H d Hin).
+  apply andb_true_iff in H. destruct H as [Hs Hm]. apply negb_true_iff in Hs. apply N.leb_le in Hm.
+  unfold line_break, bad_raw.
+  destruct (d =? 10) eqn:E10; [subst c; reflexivity|]. destruct (d =? 13) eqn:E13; [subst c; reflexivity|].
+  destruct (d =? 0) eqn:E0; [subst c; reflexivity|]. cbn [orb] in Hd. subst c.
+  rewrite E10, E13, E0, Hs. replace (1114111 <? d) with false by (symmetry; apply N.ltb_ge; lia). reflexivity.
+Qed.
+
+(* regression examples: the former witnesses now meet the statement *)
+Example fixed_F15a : lex_str (site_enum_value w_quote ++ []) = Some (w_quote, []) /\ lex_str (site_enum_value w_escn ++ []) = Some (w_escn, []).
+Proof. split; reflexivity. Qed.
+Example fixed_F15e : single_physical_line (site_field_comment w_cr) = true.
+Proof. reflexivity. Qed.
+Example fixed_F15f : lex_str (site_query_key w_quote ++ []) = Some (w_quote, []) /\ lex_str (site_header_key w_ff ++ []) = Some (w_ff, []).
+Proof. split; reflexivity. Qed.
+Example fixed_F15h : lex_str (site_default w_astral ++ []) = Some (w_astral, []).
+Proof. reflexivity. Qed.
+Example fixed_F15j : lex_str (site_media_type (w_quote ++ w_astral) ++ []) = Some (w_quote ++ w_astral, []).
+Proof. reflexivity. Qed.
+Example media_repr_example :
+  lex_lit (site_media_repr (fun c => c =? 233) [97; 39; 233; 133; 128512; 92] ++ [125]) = Some ([97; 39; 233; 133; 128512; 92], [125])
+  /\ lex_lit (site_media_repr (fun _ => false) [97; 39; 34] ++ []) = Some ([97; 39; 34], []).
 Proof. split; reflexivity. Qed.
